@@ -61,7 +61,7 @@ from collections import Counter
 from harness import common
 
 PID = "C18"
-QUICK = {"handoff": 70, "hist": 140, "e2e": 10}
+QUICK = {"handoff": 60, "hist": 120, "e2e": 10}
 THOROUGH = {"handoff": 1100, "hist": 1500, "e2e": 90}
 STUDY_NAME = "c08_study"
 
